@@ -126,7 +126,16 @@ fn event_bytes(which: Which, seq: u32, lenc: usize) -> Vec<u8> {
         Which::Sound => {
             let code = [0x1000u32, 0x1001, 0x1100, 0x1101][(seq % 4) as usize];
             let mut b = code.to_le_bytes().to_vec();
-            b.extend((0x2000_0000u32 + seq).to_le_bytes());
+            // Jack events name one of two jacks each; a jack is only ever reported connected
+            // (jacks 0, 1) or only ever disconnected (jacks 2, 3), so the same notification comes
+            // again eight events later: it is an event like any other. PCM events carry a
+            // distinct value each.
+            let data = match seq % 4 {
+                0 => (seq / 4) % 2,
+                1 => 2 + (seq / 4) % 2,
+                _ => 0x2000_0000u32 + seq,
+            };
+            b.extend(data.to_le_bytes());
             b
         }
     }
